@@ -645,6 +645,25 @@ class CallGraph:
             for _b, _s, cdef, _ops in closure_aggregates(b):
                 if cdef in facts.bodies:
                     tgt.add(cdef)
+            # a workspace function named as a VALUE (`stream.fold(clock, advance)`, `.map(Replay::from)`): whoever receives it may call it
+            for blk in b.blocks:
+                ops_ = []
+                for s_ in blk['s']:
+                    if s_['k'] == 'assign':
+                        ops_ += rv_operands(s_['rv'])
+                if blk['t']['k'] == 'call':
+                    ops_ += list(blk['t'].get('args') or [])
+                for o_ in ops_:
+                    c_ = op_const(o_) if isinstance(o_, dict) else None
+                    fn_ = (c_ or {}).get('fn_resolved') or (c_ or {}).get('fn')
+                    if fn_:
+                        for fb in facts.by_name.get(strip_generics(fn_), []):
+                            if not fb.d['promoted']:
+                                tgt.add(fb.defp)
+                                # (an async fn: its coroutine is what runs)
+                                cb_ = facts.bodies.get(fb.defp + '::{closure#0}')
+                                if cb_ is not None:
+                                    tgt.add(cb_.defp)
             self.edges[b.defp] = tgt
 
     def targets(self, t):
